@@ -583,6 +583,8 @@ def position_direct_conformance(rep, w, t, sd):
                             px = P1["px"]
                             comm = (P1["bc"] - P0["bc"]) + (P1["sc"] - P0["sc"])
                             pos.transact(Transaction("EQ:X", (q if sc == 1 else q * fs), when, px / 1000.0 / fs, "o%d" % k, commission=comm / 1000.0))
+                    elif (k + fi) % 3 == 0:
+                        pos.update_current_price(P1["px"] / 1000.0 / fs)            # the timestamp is optional
                     else:
                         pos.update_current_price(P1["px"] / 1000.0 / fs, when)
                 except Exception as e:
